@@ -1202,7 +1202,213 @@ def run_sequences(ctl: explorer.Ctl, cfg: Dict[str, Any]) -> Dict[str, Any]:
             "violations": viol[:1], "counters": counters}
 
 
+# ---------------------------------------------------------------------------
+# the deployment EDITS the library's supported list before serving (the only configuration knob there is):
+# "supported" then means the live list, for every requested value
+# ---------------------------------------------------------------------------
+CONFIG_EDITS = ["remove-oldest", "remove-middle", "keep-only-newest", "append-a-new-version", "insert-a-new-version-second",
+                "replace-oldest-by-a-new-version", "reverse-all-but-the-newest", "duplicate-the-oldest",
+                # the newest entry retired: observed and counted, NOT judged (see the report - the unchanged tree keeps
+                # counter-proposing the import-time CURRENT_VERSION constant)
+                "remove-newest"]
+CONFIG_NEW = "2030-01-01"
+
+
+def configured_list(edit: str, base: List[str]) -> List[str]:
+    b = list(base)
+    if edit == "remove-oldest":
+        return b[:-1]
+    if edit == "remove-middle":
+        return b[:1] + b[2:]
+    if edit == "keep-only-newest":
+        return b[:1]
+    if edit == "append-a-new-version":
+        return b + [CONFIG_NEW]
+    if edit == "insert-a-new-version-second":
+        return b[:1] + [CONFIG_NEW] + b[1:]
+    if edit == "replace-oldest-by-a-new-version":
+        return b[:-1] + [CONFIG_NEW]
+    if edit == "reverse-all-but-the-newest":
+        return b[:1] + b[1:][::-1]
+    if edit == "duplicate-the-oldest":
+        return b + b[-1:]
+    return b[1:]
+
+
+def run_configured(cfg) -> Dict[str, Any]:
+    import chuk_mcp.protocol.types.versioning as V
+    from chuk_mcp.protocol.messages.json_rpc_message import parse_message
+
+    base = supported_set()
+    edit = CONFIG_EDITS[cfg["edit"]]
+    live = configured_list(edit, base)
+    judged = edit != "remove-newest"
+    values: List[Any] = list(base) + [CONFIG_NEW, "2099-01-01", "1999-12-31", base[-1] + "\n", "latest", 12, None, ABSENT]
+    factory = _handler_factory()
+    counters: Dict[str, int] = {}
+    viol: List[dict] = []
+    tags = set()
+    phase = {"n": ""}
+
+    def count(k, n=1):
+        counters[k] = counters.get(k, 0) + n
+
+    def bad(sig, msg, wire):
+        if not judged:
+            count("not-judged:newest-version-retired:" + sig["class"])
+            return
+        viol.append({"sig": dict(sig, supported_list_edited=edit, handler=phase["n"]),
+                     "msg": f"the deployment edited the library's supported list ({edit}): it is now {live}; [{phase['n']}] {msg}; "
+                            f"input={json.dumps(wire, ensure_ascii=True)}"})
+
+    snapshot = list(V.SUPPORTED_VERSIONS)
+    pre = factory()                       # a handler built BEFORE the list was edited
+
+    async def main():
+        for v in values:
+            for name, h, fresh in (("handler-built-after-the-edit", factory(), True), ("handler-built-before-the-edit", pre, False)):
+                phase["n"] = name
+                r = await judge_step(h, parse_message, live, build_init(v, CLIENT_INFOS[1]), v, count, bad, fresh=fresh)
+                tags.add(r["tag"])
+
+    loop = new_loop(horizon=5)
+    try:
+        V.SUPPORTED_VERSIONS[:] = live
+        with sched.patched_uuid():
+            status, val = loop.run_main(main())
+            errors = loop.collect_errors()
+            loop.abandon()
+    finally:
+        V.SUPPORTED_VERSIONS[:] = snapshot
+    if status != "ok":
+        raise core.HarnessError(f"configured {cfg} did not complete: {status} {val!r}")
+    if errors:
+        raise core.HarnessError(f"configured {cfg}: event loop reported {errors[:2]}")
+    firsts: Dict[str, dict] = {}
+    for v in viol:
+        firsts.setdefault(json.dumps(v["sig"], sort_keys=True), v)
+    counters["configured-list-executions"] = 1
+    return {"outcome": edit + ":" + "+".join(sorted(tags)), "violations": list(firsts.values())[:6], "counters": counters}
+
+
+# ---------------------------------------------------------------------------
+# one handler shared by two OS threads (the usual sync bridge: each worker runs its own event loop): two initialize
+# requests, every interleaving at the session store's create_session entry / exit
+# ---------------------------------------------------------------------------
+def run_threads(ctl: explorer.Ctl, cfg: Dict[str, Any]) -> Dict[str, Any]:
+    import asyncio
+    import threading
+
+    from chuk_mcp.protocol.messages.json_rpc_message import parse_message
+    from chuk_mcp.server.session.memory import InMemorySessionManager
+
+    supported = supported_set()
+    vals = list(supported) + ["2099-01-01"]
+    reqs = [vals[cfg["a"]], vals[cfg["b"]]]
+    handler = _handler_factory()()
+    go = [threading.Semaphore(0), threading.Semaphore(0)]
+    arrived = threading.Semaphore(0)
+    state = {"where": ["not-started", "not-started"], "done": [False, False]}
+    me = threading.local()
+
+    def point(name):
+        i = me.i
+        state["where"][i] = name
+        arrived.release()
+        go[i].acquire()
+
+    class SlowStore(InMemorySessionManager):
+        """A store whose write takes time (network, lock): control returns to the scheduler on entry and on exit."""
+
+        def create_session(self, client_info, protocol_version, metadata=None):
+            point("entering-create_session")
+            sid = super().create_session(client_info, protocol_version, metadata)
+            point("leaving-create_session")
+            return sid
+
+    handler.session_manager = SlowStore()
+    results: List[Any] = [None, None]
+
+    def worker(i):
+        me.i = i
+        point("started")
+        wire = build_init(reqs[i], {"name": f"thread-{i}", "version": "1"})
+        wire["id"] = 70 + i
+        loop = asyncio.new_event_loop()
+        try:
+            results[i] = ("returned", loop.run_until_complete(handler.handle_message(parse_message(wire))))
+        except Exception as e:  # noqa: BLE001
+            results[i] = ("raised", e)
+        finally:
+            loop.close()
+            state["done"][i] = True
+            state["where"][i] = "done"
+            arrived.release()
+
+    order: List[str] = []
+    with sched.patched_uuid():
+        threads = [threading.Thread(target=worker, args=(i,), daemon=True) for i in range(2)]
+        for t in threads:
+            t.start()
+        for _ in range(2):
+            if not arrived.acquire(timeout=20):
+                raise core.HarnessError("thread harness: a worker did not start")
+        while not all(state["done"]):
+            menu = [i for i in range(2) if not state["done"][i]]
+            i = menu[ctl.choose(len(menu), "which-thread-runs")] if len(menu) > 1 else menu[0]
+            order.append(f"T{i}:{state['where'][i]}")
+            go[i].release()
+            if not arrived.acquire(timeout=20):
+                raise core.HarnessError(f"thread harness: thread {i} did not reach its next point (order {order})")
+        for t in threads:
+            t.join(timeout=20)
+    viol: List[dict] = []
+    tags = []
+    for i in range(2):
+        v = reqs[i]
+        how, ret = results[i]
+        other = reqs[1 - i]
+
+        def bad(cls, msg, **extra):
+            viol.append({"sig": {"class": cls, "one_handler": "shared-by-two-threads", "request_kind": request_kind(v, supported),
+                                 "other_threads_request": request_kind(other, supported), **extra},
+                         "msg": f"two threads share one handler and initialize with {reqs[0]!r} / {reqs[1]!r}; schedule {order}; "
+                                f"thread {i}: {msg}"})
+
+        if how == "raised":
+            tags.append("raised")
+            bad("initialize-raised", f"raised {type(ret).__name__}: {ret}")
+            continue
+        resp, sid = ret
+        d = resp.model_dump(exclude_none=True) if resp is not None else None
+        if d is None or classify(d)[0] != "result" or not strict_eq(d.get("id"), 70 + i):
+            tags.append("invalid")
+            bad("initialize-invalid-response", f"{d!r}")
+            continue
+        answered = d["result"].get("protocolVersion")
+        rec = handler.session_manager.get_session(sid) if isinstance(sid, str) else None
+        tags.append("echo" if answered == v else "counter")
+        if not (isinstance(answered, str) and answered in supported):
+            bad("unsupported-version-acknowledged", f"answered {answered!r}")
+        elif v in supported and answered != v:
+            bad("supported-version-not-echoed", f"requested {v!r}, answered {answered!r}",
+                answered="the-other-threads-version" if answered == other else "other")
+        if rec is None:
+            bad("no-session-recorded", f"session id {sid!r}")
+        elif not strict_eq(rec.protocol_version, answered):
+            bad("session-version-differs-from-answer", f"answered {answered!r}, the session of this request records "
+                                                       f"{rec.protocol_version!r}",
+                answered="the-other-threads-version" if answered == other else "other")
+        elif not isinstance(rec.client_info, dict) or rec.client_info.get("name") != f"thread-{i}":
+            bad("session-of-another-request", f"session records clientInfo {rec.client_info!r}")
+    return {"outcome": "/".join(tags), "order": order, "violations": viol, "counters": {"thread-schedules": 1}}
+
+
 def run_one(ctl: explorer.Ctl, cfg: Dict[str, Any]) -> Dict[str, Any]:
+    if cfg["part"] == "configured":
+        return run_configured(cfg)
+    if cfg["part"] == "threads":
+        return run_threads(ctl, cfg)
     if cfg["part"] == "sequences":
         return run_sequences(ctl, cfg)
     if cfg["part"] == "queries":
@@ -1276,6 +1482,17 @@ def run(tier: str, only=None) -> core.Result:
         sched.absorb(res, name, RUN, out, cfgs)
     # second pass: per signature the first failing cases (enumeration order), each executed alone, carry the violations
     twopass.second_pass(res, RUN, list(parts), per_sig=3)
+    if not only or "configured" in only:
+        ccfgs = [{"part": "configured", "edit": k} for k in range(len(CONFIG_EDITS))]
+        outc = explorer.explore(RUN, ccfgs)
+        sched.absorb(res, "supported-list-edited-by-the-deployment", RUN, outc, ccfgs)
+        tcfgs = [{"part": "threads", "a": a, "b": b} for a in range(len(supported) + 1) for b in range(len(supported) + 1)]
+        outt = explorer.explore(RUN, tcfgs, workers=4)
+        sched.absorb(res, "one-handler-two-threads-at-the-store-seam", RUN, outt, tcfgs)
+    cf = res.parts.get("supported-list-edited-by-the-deployment", {}).get("counters", {})
+    res.coverage["configured_list_initializes"] = cf.get("cases", 0)
+    res.coverage["newest_version_retired_not_judged"] = {k: v for k, v in cf.items() if k.startswith("not-judged:")}
+    res.coverage["thread_schedules"] = res.parts.get("one-handler-two-threads-at-the-store-seam", {}).get("executions", 0)
     if not only or "sequences" in only:
         L = 5 if tier == "quick" else 6
         scfgs = [{"part": "sequences", "kind": k, "L": L} for k in ("ProtocolHandler", "MCPServer")]
@@ -1314,7 +1531,8 @@ def run(tier: str, only=None) -> core.Result:
     res.coverage["other_store_cases"] = os_.get("cases", 0)
     t = res.parts.get("twostep", {}).get("counters", {})
     evaluations = (g.get("cases", 0) + m.get("cases", 0) + p.get("pairing-cases", 0) + t.get("twostep-cases", 0)
-                   + qc.get("cases", 0) + sq.get("executions", 0) + os_.get("cases", 0))
+                   + qc.get("cases", 0) + sq.get("executions", 0) + os_.get("cases", 0) + cf.get("cases", 0)
+                   + res.parts.get("one-handler-two-threads-at-the-store-seam", {}).get("executions", 0))
     res.coverage["twostep_cases"] = t.get("twostep-cases", 0)
     # (d) strings that a lenient parser reads as a supported date without being the supported string
     look = {sv: sum(1 for v in versions if isinstance(v, str) and v != sv and loose_parse(v) == loose_parse(sv))
@@ -1371,7 +1589,12 @@ def run(tier: str, only=None) -> core.Result:
         "name each time), delete_session of the 1st/2nd/3rd live session, cleanup_expired with the limit that ages out exactly "
         "the oldest, clear_all_sessions} on one ProtocolHandler and on one MCPServer, stubbed clock; after EVERY step every live "
         "session must still record the version answered in ITS handshake and its own clientInfo name, no live id is handed out "
-        "again, no removed id reappears without a handshake.  Queries-then-initialize: for "
+        "again, no removed id reappears without a handshake.  Configured list: the library's live supported list edited in 8 ways "
+        "(oldest / middle removed, only the newest kept, a new version appended / inserted / replacing the oldest, reordered, "
+        "duplicated) before 11 requested values are initialized on a handler built after and one built before the edit, judged "
+        "against the LIVE list (list restored afterwards).  Threads: one handler shared by two OS threads (own event loops), two "
+        "initializes over every ordered pair of the supported versions and 2099-01-01, every interleaving of the threads at the "
+        "entry and exit of the store's create_session.  Queries-then-initialize: for "
         "unsupported dates (incl. both neighbours of every supported date), every generated look-alike, every malformed string "
         "and 6 non-strings, in chunks of 6: a never-queried canary is initialized first; then for each value every public "
         "function of chuk_mcp.protocol.types.versioning and every public ProtocolVersion method (found by introspection) is called "
@@ -1387,6 +1610,9 @@ def run(tier: str, only=None) -> core.Result:
         "(requested value, clientInfo, envelope) inputs / (list, preferred) configurations; all are non-trivial (each is judged)"
     )
     res.assumptions = [
+        "editing chuk_mcp.protocol.types.versioning.SUPPORTED_VERSIONS in place is the deployment's way of configuring what the "
+        "server supports; retiring the NEWEST entry is run and counted but not judged: the unchanged tree then still counter-proposes "
+        "the import-time CURRENT_VERSION (reported as an open observation)",
         "the supported set is read from chuk_mcp.protocol.types.versioning.SUPPORTED_VERSIONS (the statement is relative to it)",
         "every requested value - supported, unsupported, malformed, non-string, absent - must be answered with a success result "
         "carrying a supported version and a session recording it; an error answer is a violation (the statement says: otherwise "
